@@ -512,6 +512,9 @@ def run(tier, seed):
     for cfg in cfgs: tasks += harnesses(rep, cfg, build.ir(cfg, "O0"), tier)
     tasks += vartime_harnesses(rep, "serial64", build.ir("serial64", "O0"), tier)
     tasks += pippenger_harnesses(rep, tier)
+    # certificate for the NAF recoding (what the NAF-based harnesses assume of their digit vectors): induction over the real loop
+    from checks import c04naf
+    tasks += c04naf.harnesses(rep, "serial64", build.ir("serial64", "O0"), tier)
     tasks += vector_harnesses(rep, "simd", build.ir("simd", "O0"), tier, "avx2")
     tasks += vartime_harnesses(rep, "simd", build.ir("simd", "O0"), tier, backend="avx2")
     # the AVX-512 IFMA copies (unstable_avx512 build, nightly toolchain)
